@@ -297,3 +297,65 @@ func VP_C05_legacy_pair_users() {
 		vpAssert(in.pos == 4 && len(out.out) == 4 && len(vpDialLog) == 1, "the-users-own-two-connections-are-paired-and-served")
 	}
 }
+
+//vp:property C07 C06 C09
+//vp:bounds two tunnels with an open channel at the same time; both hosts send a chunk (A: 4 bytes, B: 2 bytes, symbolic) at the moment both relay goroutines can run; client A is slow: while its DATA packet is in flight the other tunnel's relay builds and sends its own packet
+//vp:assume one cooperative schedule: relay A is overtaken by relay B exactly while A's packet is being written
+//vp:reach both-relayed
+func VP_C07_relays_at_once() {
+	vpResetC01()
+	vpResetHandlers()
+	g := &Gateway{}
+	vpAssume(!vpBool("dialfail1"))
+	vpAssume(!vpBool("dialfail2"))
+	chunkA := []byte{vpU8("a0"), vpU8("a1"), vpU8("a2"), vpU8("a3")}
+	chunkB := []byte{vpU8("b0"), vpU8("b1")}
+	trA, trB := vpScript(4, 0), vpScript(4, 0)
+	trA.stallWrites = true
+	// host A speaks once both channels are open; host B speaks at the moment A's packet is in flight
+	gateA, gateB := make(chan struct{}), make(chan struct{})
+	trA.onStall = func() { close(gateB) }
+	innerB := trB.gen
+	trB.ngen = 5
+	trB.gen = func(i int) []byte {
+		if i >= 4 {
+			if i == 4 {
+				close(gateA)
+			}
+			vpRunTasks()
+			return vpPacket(0xD, []byte{})
+		}
+		return innerB(i)
+	}
+	innerA := trA.gen
+	trA.ngen = 5
+	servedB := false
+	trA.gen = func(i int) []byte {
+		if i == 4 && !servedB {
+			// A's channel is open and its packet loop waits for the client: B sets its tunnel up meanwhile
+			servedB = true
+			vpBackendChunk, vpBackendGate = chunkB, gateB
+			tB := &Tunnel{RDGId: "conn-B", User: vpUser(), RemoteAddr: "10.0.0.2:1", transportIn: trB, transportOut: trB}
+			NewProcessor(g, tB).Process(vpCtx())
+		}
+		if i >= 4 {
+			return vpPacket(0xD, []byte{}) // a keep-alive, then the client drops
+		}
+		return innerA(i)
+	}
+	vpBackendChunk, vpBackendGate = chunkA, gateA
+	tA := &Tunnel{RDGId: "conn-A", User: vpUser(), RemoteAddr: "10.0.0.1:1", transportIn: trA, transportOut: trA}
+	NewProcessor(g, tA).Process(vpCtx())
+	vpRunTasks()
+	vpReach("both-relayed")
+	vpAssert(trA.corrupted == 0 && trB.corrupted == 0, "no-packet-changes-while-it-is-being-written-to-its-client")
+	check := func(tr *vpTransport, chunk []byte, who string) {
+		for _, p := range tr.out {
+			if len(p) >= 2 && p[0] == 0xA {
+				vpAssert(len(p) == 10+len(chunk) && vpEqBytes(p[10:], chunk), who+"-receives-the-bytes-of-its-own-host")
+			}
+		}
+	}
+	check(trA, chunkA, "client-a")
+	check(trB, chunkB, "client-b")
+}
